@@ -8,6 +8,8 @@ SCOPES = {
     'cfg_make_wsgi_app': (8, 0), 'cfg_route_prefix': (9, 0), 'cfg_with': (10, 0),
     'exception_view': (11, 0), 'exception_view_reraise': (11, 0), 'subrequest': (12, 0), 'request_context_manual': (13, 0), 'wsgi_call': (14, 0),
     'cfg_init': (15, 0),
+    # pyramid.paster.bootstrap with a real PasteDeploy ini file (the scripting environment as scripts get it)
+    'bootstrap': (16, 1), 'bootstrap_closer': (3, 2), 'bootstrap_with': (17, 0),
 }
 # RE-ENTRANT use (site 'current'): the scope is opened while the very frame it is about to push -- the same request
 # object and registry -- is already the current one (the harness pushes it on top of its sentinels), e.g.
@@ -38,6 +40,9 @@ SITES = {
     'wsgi_call': ['none', 'view', 'request_factory', 'tween_reraise', 'tween_reraise_mismatch']
                  + ['view_' + n for n in REENTRANT],
     'cfg_init': ['none', 'root_factory_dotted'],
+    'bootstrap': ['none', 'root_factory', 'root_factory_base', 'bad_ini', 'current'],
+    'bootstrap_closer': ['none', 'finished_callback'],
+    'bootstrap_with': ['none', 'body', 'finished_callback', 'root_factory', 'current'],
 }
 
 
@@ -264,6 +269,43 @@ def run_scope(name, site):
                 if site == 'body':
                     raise Boom()
         return _observe(f)
+    if name in ('bootstrap', 'bootstrap_closer', 'bootstrap_with'):
+        from pyramid import paster
+        _PASTE['site'] = site
+        ini = _paste_ini() if site != 'bad_ini' else _paste_ini() + '.missing'
+
+        def cb(request):
+            raise Boom()
+        kw = {}
+        top = None
+        if site == 'current':
+            # the request handed to bootstrap() is already the current one
+            app0 = paster.get_app(ini)
+            req = Request.blank('/')
+            req.registry = app0.registry
+            kw = {'request': req}
+            top = _frame(req)
+        if name == 'bootstrap':
+            return _observe(lambda: paster.bootstrap(ini, **kw), top=top)
+        if name == 'bootstrap_closer':
+            env = paster.bootstrap(ini)
+            from pyramid.threadlocal import manager
+            manager.pop()
+            if site == 'finished_callback':
+                env['request'].add_finished_callback(cb)
+            return _observe(env['closer'])
+
+        def fb():
+            # the documented spelling: `with bootstrap('app.ini') as env:`
+            with paster.bootstrap(ini, **kw) as env:
+                _see_request(env['request'])
+                if env.get('app') is None:
+                    raise AssertionError('no app in the environment')
+                if site == 'finished_callback':
+                    env['request'].add_finished_callback(cb)
+                if site == 'body':
+                    raise Boom()
+        return _observe(fb, top=top)
     if name == 'cfg_init':
         # Configurator(...) itself: __init__ -> setup_registry -> commit()
         from pyramid.config import Configurator
@@ -450,6 +492,27 @@ def run_scope(name, site):
 
 
 _CUR = {}
+_PASTE = {'site': 'none', 'ini': None}
+
+
+def paste_app_factory(global_config, **settings):
+    """PasteDeploy app factory named by the ini file of the bootstrap scopes"""
+    from pyramid.response import Response
+    c = _config(_rf(_PASTE['site']))
+    c.add_view(lambda request: Response('x'))
+    return c.make_wsgi_app()
+
+
+def _paste_ini():
+    if _PASTE['ini'] is None:
+        import os
+        import tempfile
+        d = tempfile.mkdtemp(prefix='c13paste_')
+        path = os.path.join(d, 'app.ini')
+        with open(path, 'w') as f:
+            f.write('[app:main]\nuse = call:harness.c13.scopes:paste_app_factory\n')
+        _PASTE['ini'] = path
+    return _PASTE['ini']
 
 
 class _StrSub(str):
